@@ -268,6 +268,26 @@ func checkMapOrder(c *Ctx, rule string, fs []*ssa.Function) int {
 					}
 				}
 			}
+			// a loop that keeps its list in order while filling it (binary search for the place, copy to open a
+			// gap, store by index) produces the same list whatever order the map is walked in: what looks
+			// like "stores in map order" is the insertion, and nothing is claimed about it
+			keptOrdered := false
+			for _, b := range f.Blocks {
+				if !inBody(b) {
+					continue
+				}
+				for _, in := range b.Instrs {
+					if cl, ok := in.(*ssa.Call); ok {
+						if n := calleeName(cl); strings.HasPrefix(n, "sort.Search") {
+							keptOrdered = true
+						}
+					}
+				}
+			}
+			if keptOrdered && len(problems) > 0 {
+				unknowns = append(unknowns, problems...)
+				problems = nil
+			}
 			st := holds
 			if len(problems) > 0 {
 				st = broken
